@@ -78,6 +78,21 @@ fn build_numbered(d: &Diag, numbering: u8, keys: &[u16], stride: usize) -> (Grap
     for &(a, b, h) in &d.edges {
         g.add_edge_with_type(names[a], names[b], if h { EType::H } else { EType::N });
     }
+    // odd numberings reach the same diagram through some history: refused insertions of names
+    // that are taken, and a scaffold vertex with edges that is removed again
+    if numbering % 2 == 1 && n > 0 {
+        for i in 0..n.min(2) {
+            let _ = g.add_named_vertex_with_data(names[i], mvert_data(&d.verts[i]));
+        }
+        let spiders: Vec<usize> = (0..n).filter(|&i| d.verts[i].kind != VK::B).collect();
+        if !spiders.is_empty() {
+            let t = g.add_vertex(quizx::graph::VType::Z);
+            for &i in spiders.iter().take(2) {
+                g.add_edge_with_type(t, names[i], EType::N);
+            }
+            g.remove_vertex(t);
+        }
+    }
     g.set_inputs(d.inputs.iter().map(|&i| names[i]).collect());
     g.set_outputs(d.outputs.iter().map(|&i| names[i]).collect());
     (g, names)
@@ -304,7 +319,7 @@ pub fn def(ctx: &Ctx) -> PropertyDef {
     };
     PropertyDef {
         id: "C20",
-        rule: "random diagrams over Z/X spiders with phases 0/pi and plain edges, 0-8 (10) spiders, 0-6 boundaries attached anywhere (several on one spider, isolated spiders included), each built in the hash backend under seven vertex numberings (boundaries first, last, interleaved, reversed with uniform strides; distinct names scattered over 0..2n-8n; ascending with irregular gaps). On the diagram as left by detection_webs (bipartite): every returned web satisfies the harness's own edge-level constraint system (boundary edges unmarked; at every spider its own colour's Pauli on all legs or none and the other Pauli on an even number of legs), the webs are linearly independent over F2, their number equals the dimension of that system's solution space (so they span it), the number does not depend on the numbering, inputs/outputs are restored, no panic. Non-trivial = the web space has dimension >= 1. Distinct by hash of the case.",
+        rule: "random diagrams over Z/X spiders with phases 0/pi and plain edges, 0-8 (10) spiders, 0-6 boundaries attached anywhere (several on one spider, isolated spiders included), each built in the hash backend under seven vertex numberings (boundaries first, last, interleaved, reversed with uniform strides; distinct names scattered over 0..2n-8n; ascending with irregular gaps; every other numbering reaches the diagram through a history with refused insertions of taken names and a scaffold vertex that is removed again). On the diagram as left by detection_webs (bipartite): every returned web satisfies the harness's own edge-level constraint system (boundary edges unmarked; at every spider its own colour's Pauli on all legs or none and the other Pauli on an even number of legs), the webs are linearly independent over F2, their number equals the dimension of that system's solution space (so they span it), the number does not depend on the numbering, inputs/outputs are restored, no panic. Non-trivial = the web space has dimension >= 1. Distinct by hash of the case.",
         assumptions: vec![
             "edge-level linear system over F2 written for the harness (2 unknowns per edge), independent of the firing-vector formulation used by the library",
             "boundary-boundary wires and Hadamard edges are outside the property's domain and not generated",
